@@ -112,11 +112,11 @@ Definition chunks_of (sid : bool) (sched : list event) : list text :=
 
 (** How the watchers were driven: the objects directly, [Runner.run], [Context.sudo]. *)
 Inductive via := Direct | ViaRun | ViaSudo.
-Inductive exn := XResponseNotAccepted | XFailure | XAuthFailure | XOther.
+Inductive exn := XResponseNotAccepted | XFailure | XAuthFailure | XThreadException | XOther.
 Definition exn_eqb (a b : exn) : bool :=
   match a, b with
   | XResponseNotAccepted, XResponseNotAccepted | XFailure, XFailure
-  | XAuthFailure, XAuthFailure | XOther, XOther => true
+  | XAuthFailure, XAuthFailure | XThreadException, XThreadException | XOther, XOther => true
   | _, _ => false
   end.
 Definition exn_of (v : via) : exn :=
